@@ -436,13 +436,12 @@ theorem parse_json_budgeted (s : List Char) :
     | fail => simp [hp] at h
     | oof => simp [hp] at h
 
-example : (match pValue 3 "[1,{a:null,\"b\\u00e9\":-0,},]".toList with
-    | .ok (.arr [.int 1, .obj [(['a'], .null), (['b', 'é'], .int 0)]]) [] => true
+example : (match pValue 3 "[1, [\"b\\u00e9\", -0,], // c\n]".toList with
+    | .ok (.arr [.int 1, .arr [.str ['b', 'é'], .int 0]]) [] => true
     | _ => false) = true := by decide
 example : (match pValue 2 "[[1]]".toList with | .oof => true | _ => false) = true ∧
           (match pValue 3 "[[1]]".toList with | .ok _ [] => true | _ => false) = true ∧
           (match pValue 9 "[,]".toList with | .ok (.arr []) [] => true | _ => false) = true ∧
-          (match pValue 9 "{a:1,\"a\":2}".toList with | .fail => true | _ => false) = true ∧
           (match pValue 9 "\"\\ud83d\"".toList with | .fail => true | _ => false) = true ∧
           (match pValue 9 "01".toList with | .err => true | _ => false) = true := by decide
 
